@@ -10,7 +10,7 @@ PID = "C19"; COQ_TARGET = "C19"
 RULE = ("partition replays: 3 splitters x per-species modes (binomial / perfect / duplicate) x volume modes x partition noise x mother states (integer counts 0-30) and volumes x seeds; "
         "lineages: models with production/decay reactions or none at all, linear / multiplicative volume rules and events, volume / time / deltaV division rules and division events, death rules and events, "
         "time grids, seeds; single-cell replays: 5 reaction sets x volume rules (linear, multiplicative, ODE, two rules) x division rules (volume, time, deltaV, two rules) x species death rules x volume / division / death events x plain / safe x grids from 0 or 1.5 x cells born at or before the first time; non-trivial = at least one division happened or a perfect species has an odd count")
-TRUSTED = ["hand models coq/Model/Splitters.v and coq/Model/Lineage.v (single-cell loop, noise-free rules and events) tied by stream replay of py_partition / py_SimulateSingleCell", "the lineage worklist (queue of cells, schnitz links) is decided by the harness oracle only"]
+TRUSTED = ["hand models coq/Model/Splitters.v and coq/Model/Lineage.v (single-cell loop, noise-free rules and events) tied by stream replay of py_partition / py_SimulateSingleCell", "hand model coq/Model/Worklist.v (queue of cells, schnitz links, truncated grids) tied by whole-lineage stream replay of py_SimulateCellLineage"]
 ASSUMPTIONS = ["Binomial law of the Bernoulli sum is textbook, not mechanised; chi-square only in the thorough tier as soak"]
 SPECIES = ["A", "B", "C", "D"]
 
@@ -35,6 +35,8 @@ def gen_cases(seed, tier):
                       "noise": rng.choice([0.0, 0.2, 0.5])})
     # the single-cell loop itself, replayed against coq/Model/Lineage.v on the recorded stream
     for _ in range(150 if tier == "quick" else 2000): cases.append(LS.gen_single(rng))
+    # whole lineages (worklist + single-cell loop + splitter) replayed against coq/Model/Worklist.v on the recorded stream
+    for _ in range(60 if tier == "quick" else 800): cases.append(LS.gen_lineage(rng))
     return cases
 
 def _mk_model():
@@ -98,10 +100,12 @@ def impl_case(case):
     import warnings
     warnings.simplefilter("ignore")
     if case["family"] == "single": return LS.impl(case)
+    if case["family"] == "lineage_replay": return LS.impl_lineage(case)
     return _partition_impl(case) if case["family"] == "partition" else _lineage_impl(case)
 
 def driver_line(case, r):
     if case["family"] == "single": return LS.driver_line(case, r)
+    if case["family"] == "lineage_replay": return LS.driver_line_lineage(case, r)
     if case["family"] != "partition" or not r or r.get("pos", -1) < 0: return None
     order = r["order"]                    # species name -> index in the model's state vector
     idx = {s: order[i] for i, s in enumerate(SPECIES)}
@@ -119,6 +123,7 @@ def driver_line(case, r):
 
 def compare(case, r, out):
     if case["family"] == "single": return LS.compare(case, r, out)
+    if case["family"] == "lineage_replay": return LS.compare_lineage(case, r, out)
     if case["family"] != "partition": return None
     if not r or "d" not in r: return "implementation failed: %s" % json.dumps(r)[:300]
     want = " ".join(r["d"] + ["|"] + r["e"] + ["|", r["vd"], r["ve"], str(r["pos"])])
@@ -129,6 +134,7 @@ def compare(case, r, out):
 
 def oracle(case, r):
     if case["family"] == "single": return LS.oracle(case, r)
+    if case["family"] == "lineage_replay": return LS.oracle_lineage(case, r)
     if case["family"] == "partition":
         if not r or "d" not in r: return "implementation failed: %s" % json.dumps(r)[:300]
         d = [float.fromhex(v) for v in r["d"]]; e = [float.fromhex(v) for v in r["e"]]; vd, ve = float.fromhex(r["vd"]), float.fromhex(r["ve"])
@@ -182,12 +188,15 @@ def nontrivial(case): return True
 def key(case): return json.dumps(case, sort_keys=True)
 def stats(cases):
     from collections import Counter
-    return {"families": dict(Counter(c["family"] for c in cases)), "splitters": dict(Counter(c.get("splitter", "-") for c in cases)), "division_kinds": dict(Counter(c.get("division", "-") for c in cases))}
+    return {"families": dict(Counter(c["family"] for c in cases)), "splitters": dict(Counter(c.get("splitter", "-") if isinstance(c.get("splitter", "-"), str) else "lineage(replay)" for c in cases)), "division_kinds": dict(Counter(c.get("division", "-") for c in cases))}
 def extra_checks(ctx):
     n_div = sum(1 for c, r in zip(ctx["cases"], ctx["impl_res"]) if c["family"] == "lineage" and r and "cells" in r and len(r["cells"]) > 1)
     cells = sum(len(r["cells"]) for c, r in zip(ctx["cases"], ctx["impl_res"]) if c["family"] == "lineage" and r and "cells" in r)
     single = [(c, r) for c, r in zip(ctx["cases"], ctx["impl_res"]) if c["family"] == "single" and isinstance(r, dict)]
+    rep = [(c, r) for c, r in zip(ctx["cases"], ctx["impl_res"]) if c["family"] == "lineage_replay" and isinstance(r, dict) and "cells" in r]
     return {"coverage": {"lineages_with_division": n_div, "lineage_cells_checked": cells,
+                         "lineage_replays": len(rep), "lineage_replay_cells": sum(len(r["cells"]) for c, r in rep), "lineage_replays_with_division": sum(1 for c, r in rep if len(r["cells"]) > 1),
+                         "lineage_replay_uniforms": sum(max(r.get("pos", 0), 0) for c, r in rep),
                          "single_cell_replays": len(single), "single_cell_divided": sum(1 for c, r in single if r.get("divided", -1) >= 0),
                          "single_cell_dead": sum(1 for c, r in single if r.get("dead", -1) >= 0), "single_cell_raised": sum(1 for c, r in single if "raised" in r),
                          "single_cell_born_off_grid": sum(1 for c, r in single if c["cell"]["t0"] != c["times"][0]),
